@@ -1097,8 +1097,10 @@ func (pc *PartitionContext) reserve(app *objects.Application, node *objects.Node
 		return
 	}
 
-	// add the reservation to the queue list
-	app.GetQueue().Reserve(appID)
+	// add the reservation to the queue list: an application that terminated in the meantime has left its queue
+	if queue := app.GetQueue(); queue != nil {
+		queue.Reserve(appID)
+	}
 	pc.incReservationCount()
 
 	log.Log(log.SchedPartition).Info("allocation ask is reserved",
@@ -1113,9 +1115,11 @@ func (pc *PartitionContext) reserve(app *objects.Application, node *objects.Node
 func (pc *PartitionContext) unReserve(app *objects.Application, node *objects.Node, ask *objects.Allocation) {
 	// remove the reservation of the app, this will also unReserve the node
 	num := app.UnReserve(node, ask)
-	// remove the reservation of the queue
+	// remove the reservation of the queue: an application that terminated in the meantime has left its queue
 	appID := app.ApplicationID
-	app.GetQueue().UnReserve(appID, num)
+	if queue := app.GetQueue(); queue != nil {
+		queue.UnReserve(appID, num)
+	}
 	pc.decReservationCount(num)
 
 	log.Log(log.SchedPartition).Info("allocation ask is unreserved",
